@@ -41,6 +41,54 @@ def add_dumping(sections, interval, set_out):
     return set_out
 
 
+def _rebuild(cls, state):
+    obj = cls.__new__(cls)
+    if hasattr(obj, "__setstate__"):
+        obj.__setstate__(state)
+    else:
+        obj.__dict__.update(state)
+    return obj
+
+
+class clock_jump(object):
+    """Scoped reducers that shift every pickled Time (and the quotient column of the pickled heap entries) by Q.  They
+    are installed only for the duration of one dump: a global entry would also change copy.copy(Time) inside the
+    running system."""
+
+    def __init__(self, shift):
+        self.shift = float(shift)
+
+    def __enter__(self):
+        import copyreg
+        from jellyfysh.base.time import Time
+        from jellyfysh.scheduler.heap_scheduler.heap_scheduler import HeapScheduler
+        shift = self.shift
+
+        def reduce_time(t):
+            return (Time, (t.quotient + shift, t.remainder))
+
+        def reduce_heap(h):
+            state = dict(h.__getstate__())
+            if "heap_entries" in state:
+                state["heap_entries"] = [(q + shift, r, handler, counter)
+                                         for q, r, handler, counter in state["heap_entries"]]
+            return (_rebuild, (type(h), state))
+
+        self.saved = {cls: copyreg.dispatch_table.get(cls) for cls in (Time, HeapScheduler)}
+        copyreg.pickle(Time, reduce_time)
+        copyreg.pickle(HeapScheduler, reduce_heap)
+        return self
+
+    def __exit__(self, *exc):
+        import copyreg
+        for cls, old in self.saved.items():
+            if old is None:
+                copyreg.dispatch_table.pop(cls, None)
+            else:
+                copyreg.dispatch_table[cls] = old
+        return False
+
+
 class DumpSaver(Monitor):
     """Copies the dump file aside right after each dumping write; can tear the copy (fault injection)."""
     name = "dumpsaver"
@@ -51,6 +99,8 @@ class DumpSaver(Monitor):
         self.prefix = prefix
         self.dumps = []     # (commit index of the dumping event, path)
         self.step_fn = None
+        self.jump = None
+        self.jumped = []
 
     def on_write_end(self, io_handler, name, args):
         if name != "dumping_output_handler":
@@ -63,6 +113,16 @@ class DumpSaver(Monitor):
         dst = os.path.join(self.out_dir, "%s-%06d.copy" % (self.prefix, step))
         shutil.copyfile(src, dst)
         self.dumps.append((step, dst))
+        if self.jump is not None and args:
+            # clock-jump fault (C14): a second dump of the same moment with every Time shifted by Q
+            import dill
+            import jellyfysh.setting as setting
+            import jellyfysh.base.uuid as uuid
+            jumped = os.path.join(self.out_dir, "%s-%06d.jump" % (self.prefix, step))
+            with clock_jump(self.jump):
+                with open(jumped, "wb") as f:
+                    dill.dump([args[0], setting, uuid, FACADE.getstate()], f)
+            self.jumped.append((step, jumped))
 
 
 class ResumeRecorder(Monitor):
@@ -138,7 +198,14 @@ def child_main(spec_path):
         recorder = ResumeRecorder(stop_after=spec.get("stop_after"))
         saver = DumpSaver(spec["out_dir"], prefix=spec.get("dump_prefix", "redump"))
         saver.step_fn = lambda: recorder.step
-        HUB.attach([recorder, saver])
+        monitors = [recorder, saver]
+        clock = None
+        if spec.get("shadow_clock"):
+            from .monitors.clock import ShadowClock
+            seams.install_time_seam()
+            clock = ShadowClock(None, every=spec.get("clock_every", 5))
+            monitors.append(clock)
+        HUB.attach(monitors)
         os.chdir(package_dir)
         import jellyfysh.resume as resume
         sys.argv = ["jellyfysh-resume", spec["dump"]]
@@ -155,6 +222,10 @@ def child_main(spec_path):
         out["write_log"] = recorder.write_log
         out["dumps"] = saver.dumps
         out["draws"] = FACADE.count
+        if clock is not None:
+            out["clock_problems"] = clock.problems[:5]
+            out["clock_stats"] = dict(clock.stats, checked=clock.checked, seen=clock.count,
+                                      largest_quotient=clock.max_quotient)
     except BaseException as exc:
         out["status"] = "failed"
         out["error"] = "".join(traceback.format_exception(type(exc), exc, exc.__traceback__))[-4000:]
@@ -167,8 +238,10 @@ def child_main(spec_path):
     return 0
 
 
-def resume_in_fresh_interpreter(scratch_root, dump_path, out_dir, hashseed, stop_after=None, tag="r", timeout=600):
+def resume_in_fresh_interpreter(scratch_root, dump_path, out_dir, hashseed, stop_after=None, tag="r", timeout=600,
+                                shadow_clock=False):
     spec = {"scratch": scratch_root, "dump": dump_path, "out_dir": out_dir, "stop_after": stop_after,
+            "shadow_clock": shadow_clock,
             "result": os.path.join(out_dir, "resume-%s.json" % tag), "dump_prefix": "redump-%s" % tag}
     spec_path = os.path.join(out_dir, "resume-%s.spec.json" % tag)
     with open(spec_path, "w") as f:
@@ -185,7 +258,7 @@ def resume_in_fresh_interpreter(scratch_root, dump_path, out_dir, hashseed, stop
         return json.load(f)
 
 
-def compare_tail(reference_log, reference_writes, start, resumed, allow_short=False):
+def compare_tail(reference_log, reference_writes, start, resumed, allow_short=False, compare_writes=True):
     """Compare the resumed log with the reference entries after index ``start`` (the dumping commit).  Returns None or
     a description of the first difference."""
     ref = encode_log(reference_log[start + 1:])
@@ -198,6 +271,8 @@ def compare_tail(reference_log, reference_writes, start, resumed, allow_short=Fa
             return {"at_event_after_dump": i, "reference": a, "resumed": b}
     if len(got) != len(ref) and not (allow_short and len(got) < len(ref)):
         return {"length": {"reference_tail": len(ref), "resumed": len(got)}}
+    if not compare_writes:
+        return None
     ref_w = [[s - (start + 1), name, digest] for s, name, digest in reference_writes if s > start + 1]
     got_w = [[s, name, digest] for s, name, digest in resumed["write_log"]]
     m = min(len(ref_w), len(got_w))
